@@ -34,4 +34,6 @@ def run(tier, seed):
         o.name = "C11/" + o.name
     res.add(pl)
 
+    from props import declsweep
+    res.add(declsweep.parameter_coordinates())
     return res
